@@ -1372,6 +1372,10 @@ def run(ctx, only_ops=None):
             if orc:
                 out.append((i, "oracle", orc[0], orc[1]))
                 continue
+            for op_, line_ in zip(ops, lines[1:]):
+                if line_.startswith("err"):
+                    nm = op_.split(" ", 1)[0]
+                    err_mix[nm] = err_mix.get(nm, 0) + 1
             if mod is not None:
                 for q, (a, b) in enumerate(zip(lines, mod[j])):
                     if a != b:
@@ -1379,6 +1383,7 @@ def run(ctx, only_ops=None):
                         break
         return out
     findings = []
+    err_mix = {}
     with cf.ThreadPoolExecutor(16) as ex:
         for r in ex.map(work, [c for c in chunks if c]):
             findings += r
@@ -1453,6 +1458,7 @@ def run(ctx, only_ops=None):
         "samples": [" ; ".join(h[1][:6]) for h in hists[:2]] + [" ; ".join(h[1][:6]) for h in hists[-2:]],
         "histories": len(hists), "history_kinds": kinds, "op_mix": dict(sorted(g.stats.items(), key=lambda kv: -kv[1])),
         "key_pool": {"size": len(pool), "homes_mod_1024": sorted(set(h & 1023 for _, h in pool if (h & 1023) in (0, 1, 2, 1023, 1022, 511, 512, 255)))},
+        "errors_raised_by_op": dict(sorted(err_mix.items(), key=lambda kv: -kv[1])),
         "findings": len(findings), "correspondence_diffs": len(diffs),
     }
     return ctx.finish("proof", cov, assumptions=[
